@@ -184,6 +184,7 @@ def check_preserve(case, d):
     """xml:space="preserve" text: load() returns the un-normalised text; does it survive?"""
     v = case['v']
     raw = case.get('raw', '  two  spaces\n kept ')
+    rawtext = case.get('rawtext', raw)      # what the XML fragment 'raw' denotes
     sp = 'xml:space="preserve"'
     pron = f'<Pronunciation {sp}>{raw}p</Pronunciation>' if v != '1.0' else ''
     xml = '\n'.join(xmlw.header(v)) + f"""
@@ -210,7 +211,7 @@ def check_preserve(case, d):
     t0 = texts(L0)
     V = []
     for k, t in t0.items():
-        if not t.startswith(raw):
+        if not t.startswith(rawtext):
             V.append(('load:preserve-ignored', f'xml:space=preserve {k} text loaded as {t!r}'))
     p1, p2 = d / 'd1.xml', d / 'd2.xml'
     lmf.dump(L0, p1)
@@ -258,6 +259,10 @@ def space(tier, seed):
         # whitespace that is not ASCII (and no ASCII irregularity) must survive as well
         for raw in ('a\u00a0b', 'a\u3000b\u2028c', '\u2009thin', 'tab\tonly'):
             cases.append({'v': v, 'kind': 'feat', 'base': 'm', 'delta': [], 'preserve': True, 'raw': raw})
+        # a carriage return can only be given as a character reference; written back literally it would be
+        # read as a line feed the next time
+        for raw, rawtext in (('a&#13;b', 'a\rb'), ('l1&#13;&#10;l2', 'l1\r\nl2'), ('&#13;', '\r')):
+            cases.append({'v': v, 'kind': 'feat', 'base': 'm', 'delta': [], 'preserve': True, 'raw': raw, 'rawtext': rawtext})
         for score in (0, 0.0, 0.25, 1):
             cases.append({'v': v, 'kind': 'feat', 'base': 'M', 'delta': [], 'numscore': score})
     pvers = docs.VERSIONS if tier == 'thorough' else [docs.VERSIONS[seed % 4], '1.3']
